@@ -794,6 +794,43 @@ def rule_blocklabels(ctx) -> RuleResult:
                        f"the labels announced for each block ('{src}') are always sorted, but the block's values are ordered by chunk_reduce according to `sort`: "
                        "with sort=False (first-appearance order) a block whose labels do not first appear in ascending order -- e.g. a missing label, coded -1, "
                        "that is not the block's first element -- has its values paired with the wrong labels (method='blockwise')")
+    # the same obligation for the label entry of every result dictionary in the combine step: values come out of chunk_reduce(sort=sort),
+    # so the "groups" stored next to them may not come from an always-sorting helper that ignores `sort`
+    SORTERS = ("_unique", "_find_unique_groups", "np.unique", "np.sort", "sorted")
+    for q in ("core._grouped_combine", "core._simple_combine"):
+        g = ctx.prog.funcs.get(q)
+        if g is None or "sort" not in g.params:
+            continue
+        for st in walk_own(g.node):
+            vals = []
+            if isinstance(st, ast.Assign):
+                for t in st.targets:
+                    if isinstance(t, ast.Subscript) and isinstance(t.slice, ast.Constant) and t.slice.value == "groups":
+                        vals.append(st.value)
+                if isinstance(st.value, ast.Dict):
+                    for k, v in zip(st.value.keys, st.value.values):
+                        if isinstance(k, ast.Constant) and k.value == "groups":
+                            vals.append(v)
+            for v in vals:
+                if isinstance(v, ast.Constant) and v.value is None:
+                    continue
+                # locals bound directly to the result of an always-sorting helper, used as *data* (not only for .dtype/.shape) in the stored value
+                helper_vars = {}
+                for a in walk_own(g.node):
+                    if isinstance(a, ast.Assign) and len(a.targets) == 1 and isinstance(a.targets[0], ast.Name) and isinstance(a.value, ast.Call) \
+                            and norm(a.value.func) in SORTERS:
+                        helper_vars[a.targets[0].id] = norm(a.value.func)
+                meta_nodes = {id(x.value) for x in ast.walk(v) if isinstance(x, ast.Attribute) and x.attr in ("dtype", "shape", "ndim", "size")
+                              and isinstance(x.value, ast.Name)}
+                data_names = {x.id for x in ast.walk(v) if isinstance(x, ast.Name) and id(x) not in meta_nodes}
+                always = sorted({helper_vars[nm] for nm in data_names if nm in helper_vars}
+                                | {norm(x.func) for x in ast.walk(v) if isinstance(x, ast.Call) and norm(x.func) in SORTERS})
+                uses_sort = "sort" in names_in(v)
+                res.inst(f"{q}: result labels '{norm(v)[:50]}': from an always-sorting helper: {always or False}; depends on sort: {uses_sort}", f"{q}|{st.lineno}")
+                if always and not uses_sort:
+                    res.report(f"{q}|result-labels-ignore-sort", g.where(st), q,
+                               f"the labels stored with the combined values ('{norm(v)[:60]}') come from {always[0]}, which always sorts, while the values are "
+                               "produced by chunk_reduce(..., sort=sort): with sort=False every label carries another label's value")
     return res
 
 
